@@ -528,3 +528,55 @@ Qed.
 (* the document-level $match: {} that bkld adds selects the base document *)
 Lemma match_empty_pattern bm : single_placeholder bm = false -> vmatch (VMap bm) (VMap []) = true.
 Proof. intro H. cbn. now rewrite H. Qed.
+
+(* ---- maximality of the list intersection: multiset minimum ---- *)
+Require Import Coq.Sorting.Permutation.
+
+Definition cnt (x : value) (l : list value) : nat := List.length (filter (deep_eqb x) l).
+
+Lemma deep_eqb_iff a b : deep_eqb a b = true <-> a = b.
+Proof. split; [apply deep_eqb_eq|intros ->; apply deep_eqb_refl]. Qed.
+
+Lemma deep_eqb_sym a b : deep_eqb a b = deep_eqb b a.
+Proof.
+  destruct (deep_eqb a b) eqn:E; destruct (deep_eqb b a) eqn:F; try reflexivity.
+  - apply deep_eqb_eq in E. subst. now rewrite deep_eqb_refl in F.
+  - apply deep_eqb_eq in F. subst. now rewrite deep_eqb_refl in E.
+Qed.
+
+Lemma cnt_perm x l l' : Permutation l l' -> cnt x l = cnt x l'.
+Proof.
+  unfold cnt. induction 1 as [|y l l' _ IH|y z l|l1 l2 l3 _ IH1 _ IH2]; cbn [filter].
+  - reflexivity.
+  - destruct (deep_eqb x y); cbn; congruence.
+  - destruct (deep_eqb x y), (deep_eqb x z); reflexivity.
+  - congruence.
+Qed.
+
+Lemma remove_first_perm y b b' : remove_first y b = Some b' -> Permutation b (y :: b').
+Proof.
+  revert b'. induction b as [|z r IH]; intros b' H; [discriminate|]. cbn in H.
+  destruct (deep_eqb y z) eqn:E.
+  - apply deep_eqb_eq in E. subst. inversion H; subst. apply Permutation_refl.
+  - destruct (remove_first y r) as [r'|]; [|discriminate]. inversion H; subst.
+    eapply Permutation_trans; [apply perm_skip; apply IH; reflexivity|apply perm_swap].
+Qed.
+
+Lemma remove_first_none y b : remove_first y b = None -> cnt y b = 0.
+Proof.
+  unfold cnt. induction b as [|z r IH]; intro H; [reflexivity|]. cbn in H. cbn [filter].
+  destruct (deep_eqb y z); [discriminate|]. destruct (remove_first y r); [discriminate|]. now apply IH.
+Qed.
+
+(* nothing shared is dropped: every value occurs in the result as often as in the input that has fewer *)
+Theorem list_inter_count x a : forall b, cnt x (list_inter a b) = Nat.min (cnt x a) (cnt x b).
+Proof.
+  induction a as [|y r IH]; intro b; [reflexivity|]. cbn [list_inter].
+  destruct (remove_first y b) as [b'|] eqn:E.
+  - pose proof (cnt_perm x _ _ (remove_first_perm y b b' E)) as P. rewrite P.
+    unfold cnt in *. cbn [filter]. destruct (deep_eqb x y); cbn [List.length]; rewrite IH; lia.
+  - pose proof (remove_first_none y b E) as Z. unfold cnt in *. cbn [filter].
+    destruct (deep_eqb x y) eqn:Exy.
+    + apply deep_eqb_eq in Exy. subst y. rewrite IH, Z. cbn [List.length]. lia.
+    + rewrite IH. reflexivity.
+Qed.
